@@ -37,6 +37,35 @@ def run(ctx):
         masks = [c.args()[3].v for c in f.calls() if c.name and "cpuinsn_imm_reg" in c.name and c.args()[1].v == db.enum("ORC_X86_or_imm32_rm")]
         rep.check(masks == [0x8040], "D1-MODE-CONSTANT", where(f), "or-mask", "MXCSR |= 0x8040 (FTZ bit 15, DAZ bit 6)",
                   "mask OR-ed into MXCSR is %s, not 0x8040" % [hex(m) if m is not None else None for m in masks])
+        # D1b: the load of the new MXCSR is unconditional.  The emitter is straight-line C; an EMITTED branch placed before the
+        # ldmxcsr whose label is emitted after it makes the mode switch depend on the caller's MXCSR.
+        def rowsof(c):
+            return [x.name[len("ORC_X86_"):] for a in c.args()[1:2] for x in a.walk() if x.k == "DeclRefExpr" and (x.name or "").startswith("ORC_X86_")]
+        calls = sorted({c.id: c for c in f.calls()}.values(), key=lambda c: (c.line, c.id))
+        ld = [c for c in calls if "ldmxcsr" in rowsof(c)]
+        if not ld:
+            raise AnalysisBroken("%s: no emitted ldmxcsr" % fn)
+        labels = {strip_casts(c.args()[2]).v: c.line for c in calls if c.name == "orc_x86_emit_cpuinsn_label" and len(c.args()) > 2}
+        skipping = [c for c in calls if c.name == "orc_x86_emit_cpuinsn_branch" and c.line < ld[0].line and labels.get(strip_casts(c.args()[2]).v, -1) > ld[0].line]
+        verdict = None
+        for br in skipping:
+            cond = (rowsof(br) or ["?"])[0]
+            prev = [c for c in calls if c.line < br.line and c.name and "cpuinsn" in c.name and c.name != "orc_x86_emit_cpuinsn_label"]
+            fam = (rowsof(prev[-1]) or ["?"])[0].split("_")[0] if prev else "?"
+            fam2 = (rowsof(prev[-2]) or ["?"])[0].split("_")[0] if len(prev) > 1 else "?"
+            imm = next((a.v for a in (prev[-1].args() if prev else []) if a.v == 0x8040), None)
+            imm2 = next((a.v for a in (prev[-2].args() if len(prev) > 1 else []) if a.v == 0x8040), None)
+            if cond == "jmp" or fam == "test":
+                verdict = "an emitted `%s` after `%s` (line %s) skips the ldmxcsr: the branch is taken when %s of FTZ/DAZ %s set, so a caller running with only one of " \
+                          "the two bits (or none) keeps that mode and denormals are not flushed the way emulation flushes them" % (
+                              cond, fam, br.line, "any" if cond in ("jne", "jnz") else "none", "is")
+            elif fam == "cmp" and fam2 == "and" and imm == 0x8040 and imm2 == 0x8040 and cond in ("je", "jz"):
+                continue                    # skipped only when both bits are already set: same mode either way
+            else:
+                raise AnalysisBroken("%s: the emitted ldmxcsr is skipped by `%s` after `%s`, a condition this rule does not model" % (fn, cond, fam))
+        rep.check(verdict is None, "D1b-MODE-UNCONDITIONAL", where(f), "ldmxcsr",
+                  "no emitted branch skips the ldmxcsr%s" % (" (one skip, taken only when FTZ and DAZ are both set already)" if skipping else ""),
+                  "%s: %s" % (fn, verdict), line=ld[0].line)
     # ---- D2 ------------------------------------------------------------------
     rows = {r["name"]: r for r in init_rows(db.tu("orcopcodes-sys").global_("opcodes")) if isinstance(r, dict) and r.get("name")}
     FLOAT = db.macro_int("ORC_STATIC_OPCODE_FLOAT_SRC") | db.macro_int("ORC_STATIC_OPCODE_FLOAT_DEST")
